@@ -557,8 +557,8 @@ def abort_history(tdesc: dict, order: tuple, variant: str, items: list[tuple], k
                  and the exception leaves the block; the handle is dropped afterwards
     unevaluated: the handle is built inside the block, the body raises, the handle is evaluated afterwards
     afterwards : the eager twin; the main call again, without a block, on the same lazy pipeline or on one freshly built from the
-                 same description (every needed function is invoked, exactly once: nothing of the block is left); the main call
-                 in a new block (its graph is recorded completely); the other items without a block."""
+                 same description (every needed function is invoked, exactly once: nothing of the block is left); then the main
+                 call in a new block (its graph is recorded completely) or the second item without a block."""
     n = len(tdesc["funcs"])
     pd = pcall.tla_desc_to_py(tdesc)
     o0, kw0 = items[0]
@@ -595,9 +595,10 @@ def abort_history(tdesc: dict, order: tuple, variant: str, items: list[tuple], k
     else:
         after = make_pair(d2)[0] if k % 2 else lpl
     evs += block_history(after, [(o0, kw0, m[2], 2)], "off", k + 1)
-    evs += block_history(lpl, [(o0, kw0, m[3])], "in" if k % 4 < 2 else "out", k + 2)
-    for j, (o, kw) in enumerate(items[1:2]):
-        evs += block_history(after, [(o, kw, m[j % 4])], "off", k + 3 + j)
+    if k % 2 == 0:
+        evs += block_history(lpl, [(o0, kw0, m[3])], "in" if k % 4 < 2 else "out", k + 2)
+    elif len(items) > 1:
+        evs += block_history(after, [(items[1][0], items[1][1], m[3])], "off", k + 3)
     tr = {"desc": t2, "ev": evs, "order": list(order), "abort": variant}
     if variant == "fault":
         tr["fault"] = "abort"
@@ -1030,7 +1031,7 @@ def run(ctx: Ctx) -> None:
             args = [(ncases + i, c, ctx.seed, scheme) for i, c in enumerate(cases)]
             ncases += len(cases)
             stats[what] = stream_validate(ctx, "u" + what.split("=")[1].replace(" ", ""), windowed(procs, _w_case, args, 500),
-                                          batch=480 if scheme == "full" else 6000, chunk=60 if scheme == "full" else 750,
+                                          batch=560 if scheme == "full" else 6000, chunk=70 if scheme == "full" else 750,
                                           invs=TRACE_INVS if scheme == "full" else TRACE_INVS_LIGHT, keep=kept, keep_n=400)
         mid = kept[len(kept) // 2]
         gi = [k for k, x in enumerate(mid["ev"]) if x["e"] == "graph"]
@@ -1041,7 +1042,7 @@ def run(ctx: Ctx) -> None:
         nrand = 150 if quick else 2500
         rkept: list[dict] = []
         stats["random"] = stream_validate(ctx, "rand", windowed(procs, _w_random, [(i, ctx.seed) for i in range(nrand)], 500),
-                                          batch=150 if quick else 1250, chunk=40 if quick else 160, invs=TRACE_INVS,
+                                          batch=200 if quick else 1250, chunk=50 if quick else 160, invs=TRACE_INVS,
                                           keep=rkept, keep_n=1)
         ctx.sample({"random_desc": rkept[0]["desc"], "events": rkept[0]["ev"][:12]})
         selftest(ctx, kept)
